@@ -2,6 +2,8 @@ SPECIFICATION SimSpec
 CONSTANTS
   WorkerCpus <- J_Workers
   WorkerGroup <- J_Groups
+  WorkerLife <- J_Life
+  MaxTicks = 0
   Menu <- J_Menu
   OpenJobs <- J_Open
   Classes <- J_Classes
